@@ -137,6 +137,17 @@ var (
 
 func tp(t time.Time) *time.Time { return &t }
 
+// logoutRequestURL: the request target of the following request-* cases ("" = the SP's logout URL). Where a message was
+// delivered says nothing about whom it is addressed to: the Destination must be the SP's logout URL all the same.
+var logoutRequestURL string
+
+func logoutReqURL() string {
+	if logoutRequestURL != "" {
+		return logoutRequestURL
+	}
+	return sloURL
+}
+
 func (c *Ctx) runLogout(l lresp, encoding string, delay int64) {
 	cfg := baseCfg()
 	cfg.Delay = delay
@@ -209,11 +220,11 @@ func (c *Ctx) runLogout(l lresp, encoding string, delay int64) {
 			err = s.ValidateLogoutResponseRedirect(payload)
 		case "request-post":
 			form := url.Values{"SAMLResponse": {payload}}
-			r, _ := http.NewRequest("POST", sloURL, strings.NewReader(form.Encode()))
+			r, _ := http.NewRequest("POST", logoutReqURL(), strings.NewReader(form.Encode()))
 			r.Header.Set("Content-Type", "application/x-www-form-urlencoded")
 			err = s.ValidateLogoutResponseRequest(r)
 		default:
-			r, _ := http.NewRequest("GET", sloURL+"?"+url.Values{"SAMLResponse": {payload}}.Encode(), nil)
+			r, _ := http.NewRequest("GET", logoutReqURL()+"?"+url.Values{"SAMLResponse": {payload}}.Encode(), nil)
 			err = s.ValidateLogoutResponseRequest(r)
 		}
 		if err != nil {
@@ -276,6 +287,20 @@ func (c *Ctx) genC18() {
 	sigs := []string{"idp", "none", "attacker", "idp-then-edit", "moved", "two", "idp2"}
 	base := func() lresp {
 		return lresp{Dest: sloURL, II: time.Now().UnixMilli() - 1000, Issuer: sp(idpEntity), Status: successSt, Sig: "idp", Kind: "ok"}
+	}
+	// responses addressed elsewhere, delivered to a request target that equals their Destination (an absolute-form target naming
+	// another SP; the bare path of the logout URL): the request target is the sender's choice and proves nothing
+	for _, e := range []string{"request-post", "request-redirect"} {
+		for _, tgt := range []string{"https://other-sp.example.com/saml/slo", "/saml/slo", "https://sp.example.com/saml/slo2"} {
+			for _, dest := range []string{tgt, sloURL} {
+				l := base()
+				l.Dest = dest
+				logoutRequestURL = tgt
+				c.count("c18-request-target", map[bool]string{true: "target=destination", false: "target-other"}[dest == tgt])
+				c.runLogout(l, e, delay)
+				logoutRequestURL = ""
+			}
+		}
 	}
 	for _, e := range encs {
 		for _, sg := range sigs {
